@@ -130,6 +130,12 @@ func checkStoreVisibility(rep reporter, r *ev.Run, s comet.HybridSearchIndex, p 
 	if len(everAfter) > 0 {
 		ever = everAfter[0]() // ids whose add had at least begun by the time the search returned
 	}
+	if len(everAfter) > 1 {
+		// a document whose removal began before the search returned is no longer owed
+		for id := range everAfter[1]() {
+			delete(want, id)
+		}
+	}
 	missing, foreign := a.check(want, ever)
 	if len(foreign) > 0 {
 		rep("store.never-added-id-returned", fmt.Sprintf("%s: ids never added: %v", when, foreign))
@@ -550,6 +556,16 @@ func runOneSchedule(r *ev.Run, ctl *hookCtl, own *ownership, ci int, rng *rand.R
 		}
 		return out
 	}
+	removalBegun := map[uint32]bool{}
+	removedNow := func() map[uint32]bool {
+		mmu.Lock()
+		defer mmu.Unlock()
+		out := make(map[uint32]bool, len(removalBegun))
+		for k := range removalBegun {
+			out[k] = true
+		}
+		return out
+	}
 	add := func(tag string, big bool) {
 		d := genStoreDoc(rng, p, ids.next(), tag)
 		mmu.Lock()
@@ -598,7 +614,7 @@ func runOneSchedule(r *ev.Run, ctl *hookCtl, own *ownership, ci int, rng *rand.R
 			case "add-forcing-rotation":
 				add("beside", true)
 			case "search-all":
-				checkStoreVisibility(repf, r, s, p, snap(), "beside:"+point, everNow)
+				checkStoreVisibility(repf, r, s, p, snap(), "beside:"+point, everNow, removedNow)
 			case "flush":
 				err := s.Flush()
 				addLog("beside: Flush -> %v", err)
@@ -614,21 +630,26 @@ func runOneSchedule(r *ev.Run, ctl *hookCtl, own *ownership, ci int, rng *rand.R
 				mmu.Unlock()
 				if len(live) > 0 {
 					id := live[len(live)-1]
+					mmu.Lock()
+					removalBegun[id] = true // from now on no search owes this document
+					mmu.Unlock()
 					err := s.Remove(id)
 					addLog("beside: remove %d -> %v", id, err)
+					mmu.Lock()
 					if err == nil {
-						mmu.Lock()
 						delete(m.live, id)
 						m.removed[id] = true
-						mmu.Unlock()
+					} else {
+						delete(removalBegun, id) // a refused removal changes nothing: owed again from here on
 					}
+					mmu.Unlock()
 				}
 			}
 		}, 150*time.Millisecond)
 	})
 	// primary operations: drive every path that contains hook points
 	add("primary", false)
-	checkStoreVisibility(repf, r, s, p, snap(), "primary-search", everNow)
+	checkStoreVisibility(repf, r, s, p, snap(), "primary-search", everNow, removedNow)
 	if err := s.Flush(); err != nil {
 		repf("store.flush-error", err.Error())
 	}
@@ -636,7 +657,7 @@ func runOneSchedule(r *ev.Run, ctl *hookCtl, own *ownership, ci int, rng *rand.R
 	mmu.Lock()
 	m.inMem = map[uint32]bool{}
 	mmu.Unlock()
-	checkStoreVisibility(repf, r, s, p, snap(), "primary-search-after-flush", everNow)
+	checkStoreVisibility(repf, r, s, p, snap(), "primary-search-after-flush", everNow, removedNow)
 	fired := ctl.fired()
 	if !fired {
 		// compaction points: run a compaction as the primary operation (documents only in consumed segments are F14)
@@ -679,9 +700,9 @@ func runOneSchedule(r *ev.Run, ctl *hookCtl, own *ownership, ci int, rng *rand.R
 		r.Count("schedules:action-blocked-until-resume", 1)
 	}
 	// afterwards everything acknowledged must be visible, now and after eviction
-	checkStoreVisibility(repf, r, s, p, snap(), "after-schedule", everNow)
+	checkStoreVisibility(repf, r, s, p, snap(), "after-schedule", everNow, removedNow)
 	s.VerifEvictAllCaches()
-	checkStoreVisibility(repf, r, s, p, snap(), "after-schedule-evicted", everNow)
+	checkStoreVisibility(repf, r, s, p, snap(), "after-schedule-evicted", everNow, removedNow)
 	r.Count("schedules:"+action, 1)
 	sig := ctl.signature()
 	r.Eval(true, ev.Digest("sched", point, action, sig))
